@@ -1,12 +1,13 @@
 CONSTANTS
-  MN = 3
-  MT = 2
-  MTF = 2
-  MMaxSteps = 7
+  MN = 4
+  MT = 3
+  MTF = 3
+  MMaxSteps = 5
   ExportOn = TRUE
-  SampleMod = 14
+  SampleMod = 150
   TimeoutOdds = 1
-  Ks = {0, 1}
+  MByz = {1}
+  Ks = {0, 1, 2}
 INIT MInit
 NEXT MNext
 VIEW view
